@@ -473,13 +473,17 @@ Proof. vm_compute. split; reflexivity. Qed.
 Lemma version_suffix_refuted : claim_label "com.acme.review.v2" = "com.acme.review".
 Proof. vm_compute. reflexivity. Qed.
 
-(* F-CW-CREATED: the created flag of a stds.schema-org.CreativeWork assertion is dropped; every other label keeps it *)
-Lemma creative_work_created_refuted :
-  claim_created (mkA "stds.schema-org.CreativeWork" true true) = false.
+(* the created flag is kept for every label, stds.schema-org.CreativeWork included (repaired class F-CW-CREATED) *)
+Lemma created_kept : forall a, claim_created a = ad_created a.
 Proof. reflexivity. Qed.
 
-Lemma created_kept : forall a, is_creative_work (ad_label a) = false -> claim_created a = ad_created a.
-Proof. intros a H. unfold claim_created. rewrite H. reflexivity. Qed.
+Definition cw_witness : Defn :=
+  mkD 2 false [] [mkA "c2pa.actions" false false; mkA "stds.schema-org.CreativeWork" true true] false.
+
+Lemma creative_work_created_fixed :
+  map ra_view (r_assertions (sign_report cw_witness "c2pa.hash.data"))
+  = [("stds.schema-org.CreativeWork", true, true, Some 1%nat); ("c2pa.actions.v2", false, false, Some 0%nat)].
+Proof. vm_compute. reflexivity. Qed.
 
 Definition plain_label (l : string) : Prop :=
   is_actions l = false /\ version_suffix_rev (rev_str l "") = None.
